@@ -95,12 +95,15 @@ pub mod dist {
         let kdom = spec["kdom"].as_u64().unwrap_or(3).max(1);
         let nulls = spec["nulls"].as_u64().unwrap_or(0);
         let nf = spec["f_rows"].as_u64().unwrap_or(0) + skew;
+        let spicy = spec["spicy"].as_bool().unwrap_or(false);   // strings that need CSV / JSON escaping (C35)
         let mut id = vec![]; let mut k = vec![]; let mut v = vec![]; let mut s = vec![];
         for i in 0..nf {
             id.push(i as i64 + 1);
             k.push(if r.below(100) < nulls { None } else { Some(r.below(kdom) as i64) });
             v.push(if r.below(100) < nulls { None } else { Some(r.range(-50, 50)) });
-            s.push(if r.below(100) < nulls { None } else { Some(format!("s{}", r.below(20))) });
+            s.push(if r.below(100) < nulls { None } else if spicy && r.chance(1, 3) {
+                Some(r.pick(&["a,b", "q\"uote", "line\nbreak", " lead", "trail ", "NULL", "é✓", "x\ty", "semi;colon", "cr\rlf", "'single'", "\"\""]).to_string())
+            } else { Some(format!("s{}", r.below(20))) });
         }
         write_parts(&root.join("f"), f_schema(), vec![Arc::new(Int64Array::from(id)), Arc::new(Int64Array::from(k)),
             Arc::new(Int64Array::from(v)), Arc::new(StringArray::from(s))],
